@@ -107,3 +107,13 @@ Definition compress13 (m : mode) (x : list N) : outcome (list N) :=
 (* variant used by the correspondence on inputs where computing the wrapper length in the
    extracted list model would take too long: wrapper length bytes 0 (masked in the comparison) *)
 Definition compress13_nohdr (m : mode) (x : list N) : outcome (list N) := compress13_with m 0 x.
+
+(* LZ13CompressionFormat::compress as it is after the repair of F21 (lz13.rs:158-162):
+     let length = bytes.len();
+     if length as u64 > 0xFFFF_FFFF { return Err(CompressionError::InputTooLarge(length, "LZ13")) }
+   before calculate_lz13_header.  [compress13] is the part after the guard, [compress13_o] the exported function. *)
+Definition too_large13 (x : list N) : bool := 0xFFFFFFFF <? lenN x.
+Definition compress13_o (m : mode) (x : list N) : outcome (list N) :=
+  if too_large13 x then Err ETooLarge else compress13 m x.
+Definition compress13_nohdr_o (m : mode) (x : list N) : outcome (list N) :=
+  if too_large13 x then Err ETooLarge else compress13_nohdr m x.
